@@ -462,6 +462,37 @@ def crash_scenario(cfg, scen, max_points, n_warm=8, bufsize=8192, other_fs=False
                         pass
             if scen == "overwrite":
                 shutil.copyfile(backup, P)
+        def short_writes():
+            """The OS takes only part of one write() call and says so (file-size limit, full disk, interrupted call).  The save either
+            completes with every byte on disk or raises; a file under the final name must load to the old or the new state."""
+            widx = [i for i, (k_, d_) in enumerate(events) if k_ == "write" and isinstance(d_, int) and d_ > 1]
+            pick = sorted(set([widx[0], widx[len(widx) // 2], widx[-1]])) if widx else []
+            for target in pick:
+                nb = events[target][1]
+                for off in sorted(set([1, nb // 2, nb - 1])):
+                    reset()
+                    pid2 = os.fork()
+                    if pid2 == 0:
+                        _child_save(s, P, crash.Plan("short", target, off), tmp, None, bufsize)
+                    _, st2 = os.waitpid(pid2, 0)
+                    out["short_writes"] = out.get("short_writes", 0) + 1
+                    where2 = f"write() #{target} of {len(events)} events accepted only {off} of {nb} bytes (child exit {os.WEXITSTATUS(st2)})"
+                    if not os.path.exists(P):
+                        if scen == "overwrite":
+                            out["bad"].append(("crash-lost-old-checkpoint", f"{where2}: the previous checkpoint under the final name is gone"))
+                        continue
+                    sx = _build(c, tmp)[0]
+                    try:
+                        sx.load_state(P)
+                        dgx = state_digest(sx.state)
+                    except Exception as e:
+                        out["bad"].append(("short-write-truncated-checkpoint", f"{where2}: the file under the final name ({os.path.getsize(P)} bytes) fails to load: "
+                                           f"{type(e).__name__}: {str(e)[:80]}"))
+                        return
+                    if dgx not in (old, new):
+                        out["bad"].append(("crash-mixed-checkpoint", f"{where2}: file loads to neither the complete old nor the complete new state"))
+                        return
+
         def after_restart(where):
             """The crashed job is restarted: a fresh sampler in the same directory, same label, runs with checkpoints on.  Whatever the
             dead writer left behind must not end up under a checkpoint's final name, then or later."""
@@ -536,6 +567,7 @@ def crash_scenario(cfg, scen, max_points, n_warm=8, bufsize=8192, other_fs=False
                 out["bad"].append(("restore-mismatch", "complete save does not load to the new state"))
             elif dg not in (old, new):
                 out["bad"].append(("crash-mixed-checkpoint", f"{where}: file loads to neither the complete old nor the complete new state"))
+        short_writes()
         return out
     finally:
         shutil.rmtree(tmp, ignore_errors=True)
@@ -727,6 +759,7 @@ def run():
         ck.event("kill points exercised", val["points"])
         ck.event("kill points at which the child really died", val["died"])
         ck.event("crashed saves followed by a fresh run(save_every=1) in the same directory, all checkpoint files re-inspected", val.get("restarts", 0))
+        ck.event("saves during which one OS-level write() accepted only part of its bytes (short write)", val.get("short_writes", 0))
         for k, v in val["kinds"].items():
             ck.event(f"kill point before/inside {k}", v)
         for key, what in val["bad"]:
